@@ -315,10 +315,88 @@ func c10Tight(c *Ctx, idx int) {
 	}
 }
 
+// c10Literals: chains of arithmetic and comparison operators over a mix of
+// fields and literal numbers, some at the machine-width boundaries: a parser
+// that folds or regroups constant operands must still produce the value of
+// the left-associated, precedence-ordered chain.
+var c10LitPool = []string{"0", "1", "2", "3", "7", "10", "-1", "-3", "0.5", "1.5", "100", "65536", "2147483648", "3037000500", "4000000000", "4294967295", "4294967296", "9007199254740993", "1000000000000", "9223372036854775807", "-9223372036854775808", "9999999999999999999", "1e10", "1e-3", "123456789.125"}
+
+func c10Literals(c *Ctx, idx int) {
+	r := c.Rand("")
+	doc := ref.NewObj()
+	for _, k := range []string{"a", "b", "c", "n"} {
+		doc.Set(k, gen.Num(gen.Pick(r, c10LitPool)))
+	}
+	nops := 2 + r.Intn(3)
+	var b strings.Builder
+	arith := []string{"+", "-", "*", "×", "*", "+", "/", "//", "%", "−"}
+	same := r.Chance(40)
+	op0 := gen.Pick(r, arith)
+	for i := 0; i <= nops; i++ {
+		if i > 0 {
+			op := gen.Pick(r, arith)
+			if same {
+				op = op0
+			}
+			if r.Chance(8) {
+				op = gen.Pick(r, []string{"==", "<", ">=", "!="})
+			}
+			b.WriteString(" " + op + " ")
+		}
+		switch {
+		case r.Chance(60):
+			b.WriteString("`" + gen.Pick(r, c10LitPool) + "`")
+		case r.Chance(15):
+			b.WriteString(gen.Pick(r, []string{"-", "+"}) + gen.Pick(r, []string{"a", "b", "`2`", "`4000000000`"}))
+		default:
+			b.WriteString(gen.Pick(r, []string{"a", "b", "c", "n"}))
+		}
+	}
+	T := b.String()
+	pr := ref.Parse(T)
+	if pr.Status != ref.ParseOK {
+		return
+	}
+	goDoc := ref.ToGo(doc, ref.JSONNumber)
+	feats := map[string]string{"stream": "literals"}
+	m, l := c.CheckModel("C10", T, doc, goDoc, CheckOpts{Compiled: idx%2 == 0, Features: feats})
+	// the implied parentheses written out, and the same chain with every literal moved into the document
+	spec := ref.FullParen(pr.Node)
+	l2 := c.LibSearch(spec, goDoc)
+	if !SameOutcome(l, l2, false) {
+		c.Report(Violation{Rule: "C10/implied-parentheses", Expr: T, Data: ref.ToJSONText(doc), Got: ShowOut(l), Want: ShowOut(l2) + " (result of " + spec + ")", Features: feats})
+	}
+	lits := map[string]string{}
+	T3 := T
+	for i, t := range c10LitPool {
+		name := fmt.Sprintf("k%d", i)
+		if strings.Contains(T3, "`"+t+"`") {
+			T3 = strings.ReplaceAll(T3, "`"+t+"`", name)
+			lits[name] = t
+		}
+	}
+	if len(lits) > 0 {
+		doc3 := ref.NewObj()
+		for _, k := range doc.Keys {
+			doc3.Set(k, doc.M[k])
+		}
+		for k, t := range lits {
+			doc3.Set(k, gen.Num(t))
+		}
+		l3 := c.LibSearch(T3, ref.ToGo(doc3, ref.JSONNumber))
+		if m3 := ref.Search(T3, doc3); !MultiFaultOK(m3, l, l3) && !SameOutcome(l, l3, false) {
+			c.Report(Violation{Rule: "C10/literal-operands-differ-from-fields", Expr: T, Data: ref.ToJSONText(doc), Got: ShowOut(l), Want: ShowOut(l3) + " (result of " + T3 + " with the literals as document fields)", Features: feats})
+		}
+	}
+	if !m.Unspec {
+		c.Nontrivial(T, ref.ToJSONText(doc))
+	}
+}
+
 func init() {
 	Register(&Property{
 		ID:            "C10",
-		Rule:          "unparenthesised chains of binary operators: all 18x18 ordered pairs (with and without unary prefixes !, -, +, U+2212 on operands) and all 18^3 ordered triples (thorough; a seeded sample in quick) of the operator spellings | || && == != < <= > >= + - U+2212 * U+00D7 / U+00F7 // % around operands drawn from fields, literals, selectors, function calls, parenthesised expressions and projections; for each chain the generator searches documents on which the specified grouping gives a value that every other binary-tree grouping does not (only such distinguishing instances count); checks: compiled tree of the chain = compiled tree of the chain with the implied parentheses written out (AST fingerprint hook; decides groupings no document can distinguish), library(chain) = model(chain), library(chain) = library(chain with the implied parentheses written out), and every alternative grouping written with explicit parentheses = model; plus selectors/unary operators against every binary operator",
+		Rule:          "unparenthesised chains of binary operators: all 18x18 ordered pairs (with and without unary prefixes !, -, +, U+2212 on operands) and all 18^3 ordered triples (thorough; a seeded sample in quick) of the operator spellings | || && == != < <= > >= + - U+2212 * U+00D7 / U+00F7 // % around operands drawn from fields, literals, selectors, function calls, parenthesised expressions and projections; for each chain the generator searches documents on which the specified grouping gives a value that every other binary-tree grouping does not (only such distinguishing instances count); checks: compiled tree of the chain = compiled tree of the chain with the implied parentheses written out (AST fingerprint hook; decides groupings no document can distinguish), library(chain) = model(chain), library(chain) = library(chain with the implied parentheses written out), and every alternative grouping written with explicit parentheses = model; plus selectors/unary operators against every binary operator; literals stream: chains of 3-5 arithmetic/comparison operators over a mix of fields and literal numbers (incl. 2^31, 2^32, ~3.04e9, 4e9, 2^53+1, 2^63-1, -2^63, 10^19-1): value = model, = the same chain with implied parentheses, = the same chain with every literal moved into the document",
 		MinNontrivial: 500,
 		Streams: []Stream{
 			{Name: "pairs", N: func(c *Ctx) int { return 2 * len(c10Ops) * len(c10Ops) }, Run: c10Pairs, Exhaustive: true},
@@ -330,6 +408,7 @@ func init() {
 				return n * n * n / 3
 			}, Run: c10Triples},
 			{Name: "tight", N: func(c *Ctx) int { return tierN(c, 18*4, 18*40) }, Run: c10Tight},
+			{Name: "literals", N: func(c *Ctx) int { return tierN(c, 20000, 1000000) }, Run: c10Literals},
 		},
 	})
 }
